@@ -209,6 +209,8 @@ func traceHas(tr []string, s string) bool {
 }
 
 func runC08(c *core.Ctx) {
+	c.Rule("COALT", "COALESCE's static type admits NULL unless an argument provably never is NULL")
+	checkCoalesceType(c, "COALT")
 	c.Rule("TOPLIMIT", "the outermost LIMIT is typechecked without the record schema and against Int")
 	checkTopLevelLimit(c, "TOPLIMIT")
 	c.Rule("MAYBE", "maybe-fitting arguments are asserted at run time; type-function overloads are not matched by arity")
